@@ -36,10 +36,11 @@ const (
 	aChanges
 	aCloseIter
 	aTxnRejected // WriteTxn naming the handle of a table whose registration was rejected (duplicate name)
+	aChangesUnheld // Changes(wtxn) on a table the transaction does not hold: refused, and no lock is taken for it
 	numActs
 )
 
-var actNames = []string{"txn", "read", "newTable", "changes", "closeIter", "txnRejected"}
+var actNames = []string{"txn", "read", "newTable", "changes", "closeIter", "txnRejected", "changesUnheld"}
 
 type Act struct {
 	K      int   `json:"k"`
@@ -233,6 +234,22 @@ func (s *sched) runWorker(w *worker) {
 			}
 		case aTxnRejected:
 			s.doTxnRejected(w, ai, a)
+		case aChangesUnheld:
+			if len(a.Tables) >= 2 {
+				held, other := s.table(a.Tables[0]), s.table(a.Tables[1])
+				if held.Name() != other.Name() {
+					wtxn := s.db.WriteTxn(held)
+					it, err := other.Changes(wtxn)
+					wtxn.Abort()
+					if err == nil {
+						keepAlive = append(keepAlive, it)
+						s.fail("changes-unheld", "worker %d: Changes(wtxn) on table %s succeeded although the transaction holds only %s", w.id, other.Name(), held.Name())
+					}
+					s.mu.Lock()
+					s.classes["changes_on_unheld_table"] = true
+					s.mu.Unlock()
+				}
+			}
 		}
 	}
 }
@@ -759,6 +776,8 @@ func genCase(t *rapid.T, p profile) Case {
 		case aTxnRejected:
 			a.Tables = rapid.SliceOfN(rapid.IntRange(0, 5), 0, 3).Draw(t, "tables")
 			a.Commit = rapid.Bool().Draw(t, "rejectedLast")
+		case aChangesUnheld:
+			a.Tables = rapid.SliceOfN(rapid.IntRange(0, 5), 2, 2).Draw(t, "tables")
 		case aChanges:
 			a.Tables = []int{rapid.IntRange(0, maxTable).Draw(t, "table")}
 		}
@@ -821,7 +840,7 @@ func TestC02Sched(t *testing.T) {
 }
 
 func TestC10NoDeadlock(t *testing.T) {
-	schedTest(t, "C10", "TestC10NoDeadlock", ruleC10, profile{acts: []int{aTxn, aTxn, aTxn, aTxn, aTxn, aTxn, aRead, aNewTable, aChanges, aChanges, aCloseIter, aTxnRejected}}, func(cl []string) bool {
+	schedTest(t, "C10", "TestC10NoDeadlock", ruleC10, profile{acts: []int{aTxn, aTxn, aTxn, aTxn, aTxn, aTxn, aRead, aNewTable, aChanges, aChanges, aCloseIter, aTxnRejected, aChangesUnheld}}, func(cl []string) bool {
 		return has(cl, "two_inside") && has(cl, "choice_points")
 	})
 }
